@@ -356,7 +356,8 @@ Proof.
   induction fuel as [|f IH]; intros input strip wh header acc Hf; [lia|]. cbn [parse_patch_loop].
   pose proof (parse_filepatch_total input wh) as H.
   destruct (parse_filepatch input wh) as [[i [h fp]|e]| |]; cbn in H; try contradiction; cbn [bind].
-  - destruct (unsafe_fp (strip_fp strip fp)); [eauto|]. apply IH. lia.
+  - destruct (empty_name_fp (strip_fp strip fp)); [eauto|].
+    destruct (unsafe_fp (strip_fp strip fp)); [eauto|]. apply IH. lia.
   - destruct e; eauto.
 Qed.
 
